@@ -95,7 +95,9 @@ def gen_shape(rng, k):
         seglen[s] = n
         has = with_seq is True or (with_seq == "mixed" and rng.random() < 0.6)
         if version == "gfa2":
-            lines.append("S\t%s\t%d\t%s" % (s, n, G.rand_seq(rng, n) if has else "*"))
+            # (some with the GFA1-style LN tag, which is an ordinary tag here)
+            lines.append("S\t%s\t%d\t%s%s" % (s, n, G.rand_seq(rng, n) if has else "*",
+                                              "\tLN:i:%d" % n if rng.random() < 0.2 else ""))
         elif has:
             lines.append("S\t%s\t%s" % (s, G.rand_seq(rng, n)))
         else:
